@@ -31,6 +31,29 @@ type ampCase struct {
 	Service string  `json:"service"`
 	Sources int     `json:"sources"`
 	Dgrams  []dgram `json:"datagrams"` // in sending order
+	// Family of the source addresses: "" = IPv4 (16-byte form), "v4short" = IPv4 in 4-byte
+	// form, "v6" = all sources IPv6 (global addresses that differ in the last byte only),
+	// "v6wide" = IPv6 addresses that differ in the first half only, "mixed" = source 0 IPv4,
+	// the others IPv6. (Seed C10-r5-1: a limiter keyed by To4() gives all IPv6 sources one
+	// shared allowance.)
+	Family string `json:"family,omitempty"`
+}
+
+func (c ampCase) ip(i int) net.IP {
+	v6 := net.IP{0x20, 0x01, 0x0d, 0xb8, 0, 7, 0, 0, 0, 0, 0, 0, 0, 0, 0, byte(10 + i)}
+	switch c.Family {
+	case "v4short":
+		return srcIP(i).To4()
+	case "v6":
+		return v6
+	case "v6wide":
+		return net.IP{0x20, 0x01, 0x0d, 0xb8, byte(10 + i), 7, 0, 0, 0, 0, 0, 0, 0, 0, 0, 1}
+	case "mixed":
+		if i > 0 {
+			return v6
+		}
+	}
+	return srcIP(i)
 }
 
 func srcIP(i int) net.IP { return net.IPv4(198, 51, 100, byte(10+i)) }
@@ -49,7 +72,7 @@ func send(c ampCase, only int) (func() [][]string, func(), error) {
 		if only >= 0 && d.Src != only {
 			continue
 		}
-		ds[i] = in.Srv.L.SendUDP(&net.UDPAddr{IP: svc.ServerIP, Port: p.Port}, &net.UDPAddr{IP: srcIP(d.Src), Port: d.Port}, vlib.UnHex(d.Data))
+		ds[i] = in.Srv.L.SendUDP(&net.UDPAddr{IP: svc.ServerIP, Port: p.Port}, &net.UDPAddr{IP: c.ip(d.Src), Port: d.Port}, vlib.UnHex(d.Data))
 		sent++
 		if sent%16 == 0 {
 			time.Sleep(200 * time.Microsecond) // let the dispatcher drain its accept channel
@@ -120,7 +143,7 @@ func checkAmp(c ampCase) error {
 		for s, n := range perIP {
 			if n > burstLimit {
 				// an upper bound can only be exceeded further by waiting: report at once
-				return fmt.Errorf("source %s received %d response datagrams from %s within one run (limit %d)", srcIP(s), n, c.Service, burstLimit)
+				return fmt.Errorf("source %s received %d response datagrams from %s within one run (limit %d)", c.ip(s), n, c.Service, burstLimit)
 			}
 		}
 		if c.Sources > 1 {
@@ -140,7 +163,7 @@ func checkAmp(c ampCase) error {
 					// depend on the order in which the source's own concurrent datagrams are
 					// handled (tftp DATA before/after its WRQ)
 					if len(a[i]) != len(all[i]) {
-						last = fmt.Errorf("source %s: replies to its datagram %d (%s) differ when other sources send too: alone %v, interleaved %v (another source used up its allowance?)", srcIP(s), i, d.Kind, clip(a[i]), clip(all[i]))
+						last = fmt.Errorf("source %s: replies to its datagram %d (%s) differ when other sources send too: alone %v, interleaved %v (another source used up its allowance?)", c.ip(s), i, d.Kind, clip(a[i]), clip(all[i]))
 						break
 					}
 				}
@@ -221,10 +244,12 @@ func TestAmplification(t *testing.T) {
 		}
 		return
 	}
-	r.Rule("for tftp, memcached, snmp, counterstrike: bursts of 1..200 grammar-generated datagrams (memcached incl. multi-command datagrams) from 1..3 source IPs over varying source ports, interleaved in a drawn order, through the real server's dispatcher on a fresh instance; oracle = at most 4 response datagrams per source IP per run, and a source that stays within its allowance gets exactly the replies it gets alone on a fresh instance, however greedy the other sources are; non-trivial = some source sends > 4 reply-eliciting requests")
+	r.Rule("for tftp, memcached, snmp, counterstrike: bursts of 1..200 grammar-generated datagrams (memcached incl. multi-command datagrams) from 1..3 source IPs (IPv4 in 16- and 4-byte form, IPv6 addresses differing in the last byte or in the first half only, IPv4 next to IPv6) over varying source ports, interleaved in a drawn order, through the real server's dispatcher on a fresh instance; oracle = at most 4 response datagrams per source IP per run, and a source that stays within its allowance gets exactly the replies it gets alone on a fresh instance, however greedy the other sources are; non-trivial = some source sends > 4 reply-eliciting requests")
 	r.Rapid(t, "TestAmplification", r.Pick(120, 2500), func(rt *rapid.T) {
 		c := ampCase{Service: rapid.SampledFrom([]string{"tftp", "memcached", "snmp", "counterstrike"}).Draw(rt, "service")}
 		c.Sources = rapid.IntRange(1, 3).Draw(rt, "sources")
+		c.Family = rapid.SampledFrom([]string{"", "", "v4short", "v6", "v6", "v6wide", "mixed"}).Draw(rt, "family")
+		r.Label("amp/family="+c.Family, 1)
 		eliciting := make([]int, c.Sources)
 		total := 0
 		var per [][]dgram
